@@ -157,6 +157,22 @@ def runX : XState M → List Event → Option (XState M)
     | some x' => runX x' es
     | none => none
 
+/-- the answers `ProcessBlock` gave to the deliveries of a run, in order. -/
+def resultsX : XState M → List Event → List Res
+  | _, [] => []
+  | x, e :: es =>
+    (match e with
+     | .deliver b => [(processBlockX x b).2]
+     | _ => []) ++
+    (match stepX x e with
+     | some x' => resultsX x' es
+     | none => [])
+
+/-- an answer that is not an error of the node: main / side / orphan / "already have it". -/
+def Res.fine : Res → Bool
+  | .main | .side | .orphan | .err .exist => true
+  | _ => false
+
 /-- the same events on the idealised model (unbounded pool, no clock). -/
 def stepB (s : State) : Event → Option State
   | .deliver b => some (processBlock s b).1
@@ -170,5 +186,56 @@ def runB : State → List Event → Option State
     match stepB s e with
     | some s' => runB s' es
     | none => none
+
+/-! ### ProcessBlock is not atomic: the two halves as separate steps
+
+blockchain/proc.go dispatches every `EventBroadcastAddBlock` / `EventSyncBlock` /
+`EventAddBlockDetail` with its own `go chain.processMsg(...)`, and `ProcessBlock` takes `chainLock`
+only in `maybeAddBestChain`.  The first half — `blockExists`, `IsKnownOrphan`,
+`RemoveOrphanBlockByHash`, `blockExists(parent)` — reads the index and the pool without it, the
+second half is either `AddOrphanBlock` (own lock only) or `maybeAddBestChain` (re-checks
+`blockExists` under `chainLock`).  `probe` / `finish` are these halves; a concurrent schedule
+interleaves the halves of different deliveries. -/
+
+inductive Plan
+  | reject | pool | accept
+deriving DecidableEq, Repr
+
+/-- first half of `ProcessBlock`: decide what to do with `b` (and un-orphan it when its parent is
+known by now). -/
+def probe (s : State) (b : Block) : State × Plan :=
+  if haveBlock s b.id then (s, .reject) else
+  if isKnownOrphan s b.id ∧ !haveBlock s b.parent then (s, .reject) else
+  if !haveBlock (unorphan s b) b.parent then (unorphan s b, .pool) else (unorphan s b, .accept)
+
+/-- second half: carry out the plan on the state as it is NOW. -/
+def finish (s : State) (b : Block) : Plan → State × Res
+  | .reject => (s, .err .exist)
+  | .pool => (addOrphan s b, .orphan)
+  | .accept => if haveBlock s b.id then (s, .err .exist) else acceptAndDrain s b
+
+inductive Step
+  | probe (b : Block)
+  | finish (b : Block)
+deriving DecidableEq, Repr
+
+/-- node state plus the deliveries that have decided but not yet acted. -/
+structure CState where
+  s : State
+  pending : List (Block × Plan)
+
+def cstep (c : CState) : Step → CState
+  | .probe b => { s := (probe c.s b).1, pending := c.pending ++ [(b, (probe c.s b).2)] }
+  | .finish b =>
+    match c.pending.find? (fun e => e.1 == b) with
+    | some e => { s := (finish c.s b e.2).1, pending := c.pending.erase e }
+    | none => c
+
+def crun (c : CState) (sched : List Step) : CState := sched.foldl cstep c
+
+/-- the schedule in which every delivery runs both halves back to back. -/
+def sequential : List Block → List Step
+  | [] => []
+  | b :: bs => .probe b :: .finish b :: sequential bs
 
 end C25X
